@@ -97,6 +97,19 @@ func c29Gen(g *vkit.Rand, id int) *c29Case {
 			c.Headers = append(c.Headers, hdr{caseVariant(g, n), g.PickS(c29Spoof)})
 		}
 	}
+	// a client may also nominate the forwarding headers as hop-by-hop in its Connection header
+	if g.Chance(1, 4) {
+		noms := []string{"X-Real-Ip", "X-Real-Port", "X-Forwarded-For", "X-Forwarded-Port"}
+		var pick []string
+		for _, n := range noms {
+			if g.Bool() {
+				pick = append(pick, caseVariant(g, n))
+			}
+		}
+		if len(pick) > 0 {
+			c.Headers = append(c.Headers, hdr{"Connection", strings.Join(pick, ", ")})
+		}
+	}
 	return c
 }
 
@@ -110,10 +123,19 @@ func (c *c29Case) bytes() []byte {
 		fmt.Fprintf(&sb, "PROXY %s %s %s %d 80\r\n", fam, c.PeerIP, dst, c.PeerPort)
 	}
 	fmt.Fprintf(&sb, "GET /c29/%d HTTP/1.1\r\nHost: c29.test\r\nX-Id: %d\r\n", c.ID, c.ID)
+	closeSent := false
 	for _, h := range c.Headers {
+		if h.K == "Connection" {
+			fmt.Fprintf(&sb, "Connection: close, %s\r\n", h.V)
+			closeSent = true
+			continue
+		}
 		fmt.Fprintf(&sb, "%s: %s\r\n", h.K, h.V)
 	}
-	sb.WriteString("Connection: close\r\n\r\n")
+	if !closeSent {
+		sb.WriteString("Connection: close\r\n")
+	}
+	sb.WriteString("\r\n")
 	return []byte(sb.String())
 }
 
